@@ -692,6 +692,45 @@ func registerModels(P *Program) {
 		return Tuple{m, Iface{}}
 	}
 
+	// sync.Map: an association list of interface keys hung on the receiver object (Load, Store, LoadOrStore,
+	// Delete); accesses are logged as reads/writes of the receiver for the race log like any other memory
+	anyT := types.NewInterfaceType(nil, nil)
+	syncMapOf := func(ex *Exec, recv Value) *MapV {
+		p := recv.(*Pointer)
+		if p == nil {
+			panic(targetPanic{ex.rtError("invalid memory address or nil pointer dereference")})
+		}
+		m, ok := p.obj.tag.(*MapV)
+		if !ok {
+			m = &MapV{kt: anyT, vt: anyT}
+			p.obj.tag = m
+		}
+		return m
+	}
+	ic["(*sync.Map).Load"] = func(ex *Exec, th *Thread, caller *frame, fn *ssa.Function, args []Value) Value {
+		m := syncMapOf(ex, args[0])
+		if e := ex.mapFind(m, args[1]); e != nil {
+			return Tuple{e.v, true}
+		}
+		return Tuple{Iface{}, false}
+	}
+	ic["(*sync.Map).Store"] = func(ex *Exec, th *Thread, caller *frame, fn *ssa.Function, args []Value) Value {
+		ex.mapUpdate(syncMapOf(ex, args[0]), args[1], args[2])
+		return nil
+	}
+	ic["(*sync.Map).LoadOrStore"] = func(ex *Exec, th *Thread, caller *frame, fn *ssa.Function, args []Value) Value {
+		m := syncMapOf(ex, args[0])
+		if e := ex.mapFind(m, args[1]); e != nil {
+			return Tuple{e.v, true}
+		}
+		ex.mapUpdate(m, args[1], args[2])
+		return Tuple{args[2], false}
+	}
+	ic["(*sync.Map).Delete"] = func(ex *Exec, th *Thread, caller *frame, fn *ssa.Function, args []Value) Value {
+		ex.mapDelete(syncMapOf(ex, args[0]), args[1])
+		return nil
+	}
+
 	// context: redirected to the Go-source model in the datalog overlay (vmodelWithTimeout)
 	ic["context.WithTimeout"] = func(ex *Exec, th *Thread, caller *frame, fn *ssa.Function, args []Value) Value {
 		m := ex.P.findFunc("github.com/biscuit-auth/biscuit-go/v2/datalog", "vmodelWithTimeout")
